@@ -31,7 +31,7 @@ func init() {
 	c := eng.Register(&eng.Check{
 		ID:    "C09",
 		Title: "A parsed formula can be shared across goroutines",
-		Rule: "leg A (deciding): 2- and 3-thread scenarios built from the bodies {evaluate a shared tree with an own runner and data map, collect the fields of a shared tree, parse another text, parse a malformed text and format its diagnostic} over twenty shared trees (incl. a refused call next to ordinary calls and the two logarithms of the same wide arguments); the package is compiled from an overlay that yields to a cooperative scheduler at every function entry and before every statement touching a package-level variable; every schedule with at most b preemptions is executed (iterative preemption bounding, depth-first over choice prefixes) and every thread's observation must equal its sequential observation, the shared trees' dumps must be unchanged; a control scenario sharing one runner must show several outcomes (vacuity guard); " +
+		Rule: "leg A (deciding): 2- and 3-thread scenarios built from the bodies {evaluate a shared tree with an own runner and data map, collect the fields of a shared tree, parse another text, parse a malformed text and format its diagnostic} over twenty-one shared trees (incl. one read-only catalogue referred to by every thread's data map, a refused call next to ordinary calls and the two logarithms of the same wide arguments); the package is compiled from an overlay that yields to a cooperative scheduler at every function entry and before every statement touching a package-level variable; every schedule with at most b preemptions is executed (iterative preemption bounding, depth-first over choice prefixes) and every thread's observation must equal its sequential observation, the shared trees' dumps must be unchanged; a control scenario sharing one runner must show several outcomes (vacuity guard); " +
 			"leg B (complement, sampled): the same bodies free-running under the race detector with G in {2,4,8,16} and several GOMAXPROCS; distinct = distinct observation vectors over all schedules",
 		TrustedBase: []string{"internal/sched (cooperative scheduler, preemption-bounded DFS)", "cmd/vinstr (yield-point injection through go build -overlay)", "Go race detector (leg B)"},
 		Assumptions: []string{"interleavings are explored at injected points only; unsynchronised accesses between points are the race detector's job (leg B), which samples schedules", "state inside the decimal and regexp libraries is not scheduled", "a thread that blocks on a primitive the scheduler does not model makes that schedule count as stalled (reported, never a violation)"},
@@ -94,7 +94,18 @@ var C09Trees = []string{
 	// (18, 19) the two logarithms of the same wide arguments, the slowest computations a formula can ask for
 	"[ln(3e100), ln(7e80), ln(3e100)]",
 	"[log(3e100), log(7e80), log(3e100)]",
+	// (20) each thread's own data map refers to one read-only catalogue that all threads share (data variant 5)
+	"[len('' + catalog), catalog.rows == 'x']",
 }
+
+// c09Catalog: read-only data that the data maps of all threads refer to
+var c09Catalog = func() map[string]interface{} {
+	var rows []interface{}
+	for i := 0; i < 2; i++ {
+		rows = append(rows, []interface{}{float64(i), map[string]interface{}{"tags": []interface{}{"x"}}})
+	}
+	return map[string]interface{}{"rows": rows, "name": "catalogue"}
+}()
 
 // c09SharedCtx: one cancellable context handed to every evaluation (contexts are made to be shared)
 var c09SharedCtx, c09SharedCancel = context.WithCancel(context.Background())
@@ -159,7 +170,7 @@ func C09SharedUnchanged() string {
 }
 
 var c09OtherTexts = []string{"1 + 2 * (3 - x)", "f(a, [b, c]...) ? 'y' : \"n\"", "a.b!.c + len('中')", "'\\u4e2d\\x41' + \"\\u00e9\\n\" + 1_000.5e+1_0", "'\\u9fa5\\x42\\t' + .5e-3 + a.\nb"}
-var c09BadTexts = []string{"1 +\r\n(", "[a, b", "'open\n", "0x1F + 'a\\u12'", "1__0 + '\\x4'"}
+var c09BadTexts = []string{"1 +\r\n(", "[a, b", "'open\n", "0x1F + 'a\\u12'", "1__0 + '\\x4'", "a ? b", "x ? (y ? 1", "cond ? [1, 2] + 'abc'"}
 
 // C09Body returns the thread body named name ("eval:2", "fields:0", "parse:1", "bad:0").
 func C09Body(name string) func() string {
@@ -176,6 +187,10 @@ func C09Body(name string) func() string {
 		switch {
 		case variant == 3:
 			r.SetThis(map[string]interface{}{}) // the thread's own, empty data map
+		case variant == 5:
+			d := c08Data()
+			d["catalog"] = c09Catalog
+			r.SetThis(d)
 		case variant == 4:
 			d := c08Data()
 			d["badres"] = func() (int, bool) { return 1, true }
@@ -291,6 +306,16 @@ func C09Body(name string) func() string {
 					s += " | " + formula.FormatDiagnostic(o.src, d)
 				}
 			}
+			// the caller looks at what the failed parse handed back a little later: it is the caller's own
+			sched.Point("harness:before-reading-the-returned-tree")
+			func() {
+				defer func() {
+					if recover() != nil {
+						s += " | tree: not walkable"
+					}
+				}()
+				s += " | tree: " + dumpTree(o.src)
+			}()
 			return s
 		}
 	case "shared-runner":
@@ -352,6 +377,7 @@ func C09Scenarios(quick bool) [][]string {
 	sc = append(sc, []string{"eval:12:0", "eval:12:1"}, []string{"eval2:12:1", "eval:12:0"}, []string{"eval:12:0", "eval:2", "eval:12:1"})
 	sc = append(sc, []string{"eval:13:3", "eval:13:3"}, []string{"eval2:13:3", "eval:13:3"}, []string{"eval:13:3", "eval:3"})
 	sc = append(sc, []string{"eval:16:3", "eval:16:3"})
+	sc = append(sc, []string{"eval:20:5", "eval:20:5"}, []string{"eval2:20:5", "eval:20:5"}, []string{"bad:5", "bad:6"}, []string{"bad:5", "bad:5"}, []string{"bad:7", "bad:6"})
 	sc = append(sc, []string{"eval2:17:4", "eval:4"}, []string{"eval:17:4", "eval:4", "eval:4"}, []string{"eval:18", "eval:19"}, []string{"eval2:18", "eval:19"}, []string{"eval:19", "eval:19"})
 	if !quick {
 		sc = append(sc, []string{"eval2:16:3", "fields:16"})
@@ -475,7 +501,7 @@ func runC09(w *eng.W) {
 		}
 		heavy := false // parse bodies have ~5x the scheduling points of evaluations
 		for _, n := range sc {
-			if strings.HasPrefix(n, "parse") || strings.HasPrefix(n, "bad") || strings.HasPrefix(n, "eval2") {
+			if strings.HasPrefix(n, "parse") || strings.HasPrefix(n, "bad") || strings.HasPrefix(n, "eval2") || strings.HasPrefix(n, "eval:20") {
 				heavy = true
 			}
 		}
@@ -508,6 +534,9 @@ func runC09(w *eng.W) {
 		ex := &sched.Explorer{
 			Bound: bound,
 			Stall: 5 * time.Second,
+			// a thread that waits on a primitive the scheduler does not model (a channel) stalls the execution: such
+			// a scenario is given up after three stalls and reported as not exhaustive; the free-running pass covers it
+			MaxStalls: 3,
 			Bodies: func() []func() string {
 				resetPools() // every execution starts from the same (empty) pool state
 				if cold {
